@@ -123,6 +123,23 @@ func (fr *frame) callCounted(b *ssa.BasicBlock, site ssa.Instruction, c *ssa.Cal
 				x.regKey(key, "Int")
 				nh = nh.set(key, asInt(res.ts[k], leaves(rt)[k].Sort))
 			}
+			// assume[cn:label]: a stated assumption about this (uncontracted) callee, over the top function's parameters,
+			// in the state right after the call
+			if x.con != nil && x.topFr != nil {
+				for _, a := range x.con.Assumes {
+					if !strings.HasPrefix(a.Label, cn+":") {
+						continue
+					}
+					if _, contracted := x.eng.contracts[name]; contracted {
+						x.note("assume[" + a.Label + "] ignored: " + name + " has a contract")
+						continue
+					}
+					ci := x.eng.clauses[a]
+					env := x.newSpecEnv(ci, x.topFr.paramVals(ci.params, nil), nh, x.topFr.entry)
+					x.sc.assertC(implies(reach, x.evalBool(env, clauseExpr(ci))), "assumed after "+name+": "+a.Text)
+					x.assumed[shortFn(x.top)+": assumed after every call of "+name+" ("+a.Label+"): "+a.Text] = true
+				}
+			}
 		}
 		return res, nh
 	}
@@ -232,6 +249,83 @@ func (fr *frame) countSend(in *ssa.Send, h Heap) Heap {
 			ak := fmt.Sprintf("$arg:%s:%d", cs[0], i)
 			x.regKey(ak, "Int")
 			h = h.set(ak, asInt(v.ts[i], ls[i].Sort))
+		}
+	}
+	return h
+}
+
+// storeFieldName: "Type.field" when the address is a field of a named struct type, else "".
+func storeFieldName(addr ssa.Value) string {
+	fa, ok := addr.(*ssa.FieldAddr)
+	if !ok {
+		return ""
+	}
+	pt, ok := fa.X.Type().Underlying().(*types.Pointer)
+	if !ok {
+		return ""
+	}
+	st, ok := pt.Elem().Underlying().(*types.Struct)
+	if !ok {
+		return ""
+	}
+	tn := ""
+	switch t := pt.Elem().(type) {
+	case *types.Named:
+		tn = t.Obj().Name()
+	case *types.Alias:
+		tn = t.Obj().Name()
+	}
+	if tn == "" {
+		return ""
+	}
+	return tn + "." + st.Field(fa.Field).Name()
+}
+
+// countStore: ghost counters with pattern store:<Type>.<field> (optionally #k: only the k-th such store of the
+// function in source order) watch the function's own stores to that field; argument 0 is the object written,
+// argument 1 the first leaf of the stored value.
+func (fr *frame) countStore(in *ssa.Store, h Heap) Heap {
+	x := fr.x
+	if x.con == nil || len(x.con.Counts) == 0 {
+		return h
+	}
+	name := storeFieldName(in.Addr)
+	if name == "" {
+		return h
+	}
+	ord := 0
+	for _, blk := range in.Parent().Blocks {
+		for _, other := range blk.Instrs {
+			if s, ok := other.(*ssa.Store); ok && storeFieldName(s.Addr) == name && s.Pos() <= in.Pos() {
+				ord++
+			}
+		}
+	}
+	for _, cs := range x.con.Counts {
+		if cs[1] != "store:"+name && cs[1] != fmt.Sprintf("store:%s#%d", name, ord) {
+			continue
+		}
+		if x.countHits == nil {
+			x.countHits = map[string]int{}
+		}
+		x.countHits[cs[0]]++
+		if strings.HasPrefix(cs[0], "!forbid:") {
+			continue
+		}
+		k := "$cnt:" + cs[0]
+		x.regKey(k, "Int")
+		h = h.set(k, plus(x.hget(h, k), "1"))
+		base := fr.get(in.Addr.(*ssa.FieldAddr).X)
+		if len(base.ts) > 0 && base.fp == nil {
+			ak := fmt.Sprintf("$arg:%s:0", cs[0])
+			x.regKey(ak, "Int")
+			h = h.set(ak, base.ts[0])
+		}
+		v := fr.get(in.Val)
+		if ls := leaves(in.Val.Type()); len(v.ts) > 0 && len(ls) > 0 && v.fp == nil {
+			ak := fmt.Sprintf("$arg:%s:1", cs[0])
+			x.regKey(ak, "Int")
+			h = h.set(ak, asInt(v.ts[0], ls[0].Sort))
 		}
 	}
 	return h
@@ -766,6 +860,10 @@ func (fr *frame) builtin(b *ssa.BasicBlock, site ssa.Instruction, bi *ssa.Builti
 		case *types.Chan:
 			r := x.freshConst("chanlen", "Int")
 			x.sc.assert(app(">=", r, "0"))
+			if sz := types.SizesFor("gc", "amd64").Sizeof(t.Elem()); sz > 0 {
+				// makechan refuses a buffer above maxAlloc (2^48 bytes on 64-bit platforms)
+				x.sc.assert(app("<=", r, "281474976710656"))
+			}
 			return Val{ts: []Term{r}}, h
 		}
 		r := x.freshConst("len", "Int")
@@ -872,6 +970,36 @@ func (fr *frame) appendBuiltin(args []Val, atypes []types.Type, rt types.Type, r
 				x.sc.assert(eq(app("select", newArr, sidx(noff, s.ts[2])), app("select", srcArr, sidx(add.ts[1], "0"))))
 			}
 			nh = x.hset(nh, key, ite(eq(add.ts[2], "0"), old, app("store", old, nb, newArr)))
+		}
+	} else if stT, isStruct := et.Underlying().(*types.Struct); isStruct {
+		// struct elements live at elemaddr(base, index); their scalar fields in the field heaps at that address.
+		// Every field heap is rewritten at the addresses of the result's elements: [0,len) from s, [len,len+k) from
+		// add, all other addresses unchanged. Fields that are themselves arrays / structs (embedded at their own
+		// addresses) are not copied: their contents in the result are unconstrained (an over-approximation).
+		x.elemAddr(et, "0", "0") // declares the addressing function and its inverses
+		ea := sym("elemaddr!" + cleanKey(typeKey(et)))
+		eb := sym("elemaddr_b!" + cleanKey(typeKey(et)))
+		ei := sym("elemaddr_i!" + cleanKey(typeKey(et)))
+		for i := 0; i < stT.NumFields(); i++ {
+			f := stT.Field(i)
+			if isAggregate(f.Type()) {
+				x.note("append of struct elements: embedded field " + f.Name() + " of " + et.String() + " is not copied (unconstrained in the result)")
+				continue
+			}
+			for _, l := range leaves(f.Type()) {
+				key := fieldKey(et, "."+f.Name()) + l.Path
+				x.regKey(key, heapSort(l.Sort))
+				old := x.hget(h, key)
+				nw := x.freshConst("appfld", heapSort(l.Sort))
+				idx := app(ei, "p!")
+				rel := app("-", idx, noff)
+				isElem := and(eq("p!", app(ea, app(eb, "p!"), idx)), eq(app(eb, "p!"), nb), app("<=", noff, idx), app("<", rel, newLen))
+				src := ite(app("<", rel, s.ts[2]),
+					app("select", old, app(ea, s.ts[0], sidx(s.ts[1], rel))),
+					app("select", old, app(ea, add.ts[0], sidx(add.ts[1], app("-", rel, s.ts[2])))))
+				x.sc.assert(fmt.Sprintf("(forall ((p! Int)) (! (= (select %s p!) (ite %s %s (select %s p!))) :pattern ((select %s p!))))", nw, isElem, src, old, nw))
+				nh = x.hset(nh, key, ite(eq(add.ts[2], "0"), old, nw))
+			}
 		}
 	}
 	return res, nh
